@@ -134,6 +134,18 @@ def run(tier):
                             c["scratch"] = scratch
                         cases.append(c)
                         meta.append(("template", name, exp, hint, (ka, kb, kt), ov))
+                    # the catalog spells its names in upper / mixed case (as many databases report them): unquoted references still mean them
+                    if k % 3 == 0 and (ka or kb or kt):
+                        # (column names only: the dict-backed provider is keyed by the table names exactly as its user spelled them)
+                        mdu = {t: [c.upper() if k % 2 else c[0].upper() + c[1:] for c in cols] for t, cols in md.items()}
+                        for prov in ("dummy", "sqlalchemy"):
+                            if prov == "sqlalchemy" and tier == "quick" and k % 2:
+                                continue
+                            c = {"sql": sql, "dialect": "ansi", "metadata": mdu, "provider": prov, "want": []}
+                            if prov == "sqlalchemy":
+                                c["scratch"] = scratch
+                            cases.append(c)
+                            meta.append(("template", name, exp, hint, (ka, kb, kt), ov + ":catalog_case"))
                     # namesakes: the same template over tables that share their bare name across schemas (source dw.orders, target stg.orders)
                     if ka != kt and name in ("star_single", "insert_positional", "star_derived", "star_cte", "star_qualified", "unqualified_ax", "insert_explicit_list"):
                         sub = lambda x: _subst(x, {"db.a": "dw.orders", "db.t": "stg.orders"})  # noqa: E731
